@@ -46,16 +46,41 @@ class NDSet(builtins.set):
     def copy(self):
         return NDSet(self)
 
+    @staticmethod
+    def _other(o):
+        import collections.abc as cabc
+        if isinstance(o, builtins.set):
+            return o
+        if isinstance(o, (cabc.KeysView, cabc.ItemsView, builtins.frozenset)):
+            return builtins.set(o)
+        return None
+
     def __or__(self, o):
-        return NDSet(builtins.set.__or__(self, o))
+        o = NDSet._other(o)
+        return NotImplemented if o is None else NDSet(builtins.set.__or__(self, o))
 
     def __and__(self, o):
-        return NDSet(builtins.set.__and__(self, o))
+        o = NDSet._other(o)
+        return NotImplemented if o is None else NDSet(builtins.set.__and__(self, o))
 
     def __sub__(self, o):
-        return NDSet(builtins.set.__sub__(self, o))
+        o = NDSet._other(o)
+        return NotImplemented if o is None else NDSet(builtins.set.__sub__(self, o))
+
+    def __xor__(self, o):
+        o = NDSet._other(o)
+        return NotImplemented if o is None else NDSet(builtins.set.__xor__(self, o))
+
+    def __rsub__(self, o):
+        o = NDSet._other(o)
+        return NotImplemented if o is None else NDSet(builtins.set.__sub__(o, self))
 
     __ror__ = __or__
+    __rand__ = __and__
+    __rxor__ = __xor__
+
+    def symmetric_difference(self, o):
+        return NDSet(builtins.set.symmetric_difference(self, o))
 
 
 class NDFrozenSet(builtins.frozenset):
